@@ -45,7 +45,7 @@ def check(repo, tier="quick"):
 
     _lints.rule(repo, res, "C21.h", ['bitstream.serdes', 'fixeddict', 'bitstream.vc2_fixeddicts'])
     res.floor("C21.h", 4)
-    res.floor("C21.a", 20)
+    res.floor("C21.a", 34)
     res.floor("C21.b", 15)
     res.floor("C21.c", 5)
     res.floor("C21.d", 45)
@@ -99,6 +99,19 @@ def rule_a(repo, res, m, meth, where):
             if r_io is not None and w_io is not None:
                 ok = ok and [a.arg for a in r_io.args.args][1 : 1 + len(dparams)] == [a.arg for a in w_io.args.args][1 : 1 + len(dparams)] or ok and len(dparams) == 1
             res.check(ok, "C21.a", "%s:size-argument" % p, where, "size argument not passed through identically: reader%s writer%s" % (dargs, sargs), by="reader(%s) / writer(%s, value)" % (", ".join(dparams), ", ".join(sparams)))
+        # each side performs its stream access and its context access unconditionally, once, on every call
+        for cname, f, ctx, io_call in (("Deserialiser", d, "_set_context_value", "read_" + x), ("Serialiser", s, "_get_context_value", "write_" + x)):
+            body = [b for b in f.body if not (isinstance(b, ast.Expr) and isinstance(b.value, ast.Constant))]
+
+            def top_index(name):
+                for i, b in enumerate(body):
+                    if isinstance(b, (ast.Expr, ast.Assign, ast.Return)) and any(isinstance(c, ast.Call) and (dotted(c.func) or "").endswith("." + name) for c in ast.walk(b)):
+                        return i
+                return None
+
+            i_ctx, i_io = top_index(ctx), top_index(io_call)
+            early = [b for b in body[: max(i_ctx or 0, i_io or 0)] if any(isinstance(z, (ast.Return, ast.Raise, ast.If, ast.While, ast.For, ast.Try)) for z in ast.walk(b))]
+            res.check(i_ctx is not None and i_io is not None and not early, "C21.a", "%s.%s:unconditional" % (cname, p), "%s:%s" % (where, cname), "%s.%s must call self.%s and self.io.%s as statements of its body on every call, with no branch or exit before them: a shortcut for some argument value (e.g. zero width) makes one side skip a target that the other side stores or requires" % (cname, p, ctx, io_call), by="%s and io.%s at the top level of the body" % (ctx, io_call))
         # deserialiser returns what it read and stored; serialiser returns what it wrote
         mon = meth["MonitoredMixin"].get(p)
         if mon is not None:
